@@ -36,7 +36,7 @@ WsPool == WsCore
 
 \* RTP / RTCP datagrams of an RTSP publisher
 Hdrs == {"ok", "nopl", "v0", "v3", "pad0", "pad1", "pad4", "pad255", "padAll", "padHdr", "ext0", "ext1", "extPast", "extCut",
-         "extAll", "cc2", "cc15short", "cc15all", "ptOther"}
+         "extAll", "ext4000", "ext8000", "extc000", "ext4001", "cc2", "cc15short", "cc15all", "ptOther"}
 AvcPl == {"single", "single1", "sps", "pps", "stapOk", "stapIdr", "stap1", "stap2", "stap3", "stapSize0", "stapAll0", "stapPast", "stapFFFF",
           "stapOdd", "fuS", "fuM", "fuE", "fu1", "fu2S", "fu2E", "fu2M", "fuSE", "fuB", "t30", "t0", "mtap", "fbit"}
 HevcPl == {"single", "single1", "single2", "sps", "vps", "pps", "apOk", "ap1", "ap2", "ap3", "apSize0", "apPast", "apFFFF", "apOdd",
